@@ -125,14 +125,30 @@ func runScript(db database.Database, script []any, out *vfd.Out, skipHighIter bo
 			}
 			rec["p"], rec["s"] = vfd.B(p), vfd.B(s)
 			keys, vals := [][]int{}, [][]int{}
+			held := 0
 			it, e := db.NewIterator(p, s)
 			err = e
 			if e == nil {
 				scramble(p)
 				scramble(s)
+				first := true
 				for it.Next() {
 					kk := append([]byte(nil), it.Key()...)
-					vv := append([]byte(nil), it.Value()...)
+					raw := it.Value()
+					vv := append([]byte(nil), raw...)
+					if first && len(vv) > 0 {
+						// a slice handed out by the iterator must not change when the same key is overwritten by a
+						// value of the same length while the iterator still stands on it (then the original is put back)
+						first = false
+						other := append([]byte(nil), vv...)
+						other[0] ^= 0x5a
+						if db.Put(append([]byte(nil), kk...), other) == nil {
+							if !bytes.Equal(raw, vv) {
+								held++
+							}
+							db.Put(append([]byte(nil), kk...), append([]byte(nil), vv...))
+						}
+					}
 					keys = append(keys, vfd.B(kk))
 					vals = append(vals, vfd.B(vv))
 					remember(vv)
@@ -143,6 +159,7 @@ func runScript(db database.Database, script []any, out *vfd.Out, skipHighIter bo
 				it.Close()
 			}
 			rec["keys"], rec["vals"] = keys, vals
+			rec["held"] = held
 		}
 		rec["iso"] = iso()
 		if err != nil {
